@@ -24,7 +24,7 @@ import (
 // through seven routes (defun + direct call, the same after Code.Compile,
 // defun + funcall of the symbol, lambda + funcall, apply with a spread list,
 // ((lambda ...) ...), multiple-value-call) and every route is judged against
-// the reference binder. With Ambient the call is made inside a let that
+// the reference binder. With Amb (see ambModes) the call is made inside a let that
 // binds variables named like the optional/rest/key/aux parameters: under
 // lexical scoping that must not change any binding.
 // ---------------------------------------------------------------------------
@@ -445,9 +445,22 @@ var variantBases = []int{0, 1, 2, 5, 6, 24, 25, 29, 48 + 1, 96 + 2, 144 + 5, 48 
 
 func nVariantProbes() int { return nVariants * len(variantBases) * probePerLL }
 
-// ambient probes: the call is made where the caller has variables named
-// like the optional, rest, key and aux parameters.
-const ambientPerLL = 6
+// ambModes: where a variable with the NAME of every parameter (required ones
+// included) is visible when the function is called. None of them is an
+// argument: too few arguments stay an error, an absent optional/key gets its
+// own default.
+//
+//	let     - the call is inside a let binding the names
+//	caller  - the call is inside a function whose own parameters have the names
+//	closure - the function is created inside a let binding the names and
+//	          called outside of it
+//	global  - the names are defvar'ed globals
+var ambModes = []string{"let", "caller", "closure", "global"}
+
+// ambient probes per lambda list: every mode x 5 vectors (one required
+// argument missing, all missing, exactly the required ones, all positionals,
+// all positionals + the last key).
+const ambientPerLL = 4 * 5
 
 type layout struct {
 	exh                                                     *exhTable
@@ -502,9 +515,24 @@ func genLam(r *rand.Rand, i int, tier string) Case {
 		k := i - ly.ambStart
 		c.LL = shape(k / ambientPerLL)
 		sub := k % ambientPerLL
-		np := []int{len(c.LL.Req), len(c.LL.Req) + len(c.LL.Opt)}[sub/3]
-		c.Args = probeVector(c.LL, np, []int{0, 1, 8}[sub%3])
-		c.Ambient = true
+		nr, no := len(c.LL.Req), len(c.LL.Opt)
+		c.Amb = ambModes[sub/5]
+		switch sub % 5 {
+		case 0: // the last required argument is missing (too many when there is none)
+			if 0 < nr {
+				c.Args = probeVector(c.LL, nr-1, 0)
+			} else {
+				c.Args = probeVector(c.LL, no+1, 0)
+			}
+		case 1: // every required argument is missing
+			c.Args = probeVector(c.LL, 0, 0)
+		case 2:
+			c.Args = probeVector(c.LL, nr, 0)
+		case 3:
+			c.Args = probeVector(c.LL, nr+no, 0)
+		case 4:
+			c.Args = probeVector(c.LL, nr+no, 8)
+		}
 		c.Block = "ambient-probe"
 	case i < ly.trcStart:
 		k := i - ly.valStart
@@ -516,7 +544,9 @@ func genLam(r *rand.Rand, i int, tier string) Case {
 			c.LL = variant(shape(variantBases[vb%len(variantBases)]), vb/len(variantBases))
 		}
 		c.Args = valueProbe(c.LL, k%valuePerLL)
-		c.Ambient = (k/valuePerLL)%5 == 4
+		if (k/valuePerLL)%5 == 4 {
+			c.Amb = ambModes[(k/valuePerLL/5)%len(ambModes)]
+		}
 		c.Block = "value-probe"
 	case i < ly.rnd:
 		k := i - ly.trcStart
@@ -529,7 +559,9 @@ func genLam(r *rand.Rand, i int, tier string) Case {
 			tails := []int{0, 1, 2, 3, 8}
 			c.Args = probeVector(c.LL, nposChoices(c.LL)[sub/len(tails)], tails[sub%len(tails)])
 		}
-		c.Ambient = (k/tracedPerLL)%4 == 3
+		if (k/tracedPerLL)%4 == 3 {
+			c.Amb = ambModes[(k/tracedPerLL/4)%len(ambModes)]
+		}
 		c.Block = "traced-probe"
 	default:
 		c.LL = shape(r.IntN(nShapes))
@@ -540,7 +572,9 @@ func genLam(r *rand.Rand, i int, tier string) Case {
 			c.LL = traced(c.LL)
 		}
 		c.Args = randomArgs(r, c.LL)
-		c.Ambient = r.IntN(4) == 0
+		if r.IntN(4) == 0 {
+			c.Amb = fw.Pick(r, ambModes)
+		}
 		c.Block = "random"
 	}
 	c.Split = r.IntN(3)
@@ -716,6 +750,7 @@ func program(c *Case, route, fname string) string {
 	}
 	ll := c.LL.Text()
 	lam := "(lambda " + ll + " " + body + ")"
+	defun := "(defun " + fname + " " + ll + " " + body + ")"
 	args := strings.Join(c.Args, " ")
 	sp := func(s string) string {
 		if s == "" {
@@ -723,46 +758,74 @@ func program(c *Case, route, fname string) string {
 		}
 		return " " + s
 	}
-	wrap := func(call string) string { return call }
-	if c.Ambient {
-		var b []string
-		names, kinds := c.LL.Names()
-		for i, n := range names {
-			if kinds[i] != "req" {
-				b = append(b, fmt.Sprintf("(%s %d)", n, ambientBase+i))
-			}
-		}
-		wrap = func(call string) string { return "(let (" + strings.Join(b, " ") + ") " + call + ")" }
+	isDefun := route == "defun" || route == "compiled" || route == "symcall"
+	// the function as it appears in the call
+	fn := lam
+	if c.Amb == "closure" && !isDefun {
+		fn = "c04f" // a variable holding the closure made inside the let
+	}
+	var call string
+	k := c.Split
+	if len(c.Args) < k {
+		k = len(c.Args)
 	}
 	switch route {
 	case "symcall":
-		return "(defun " + fname + " " + ll + " " + body + ") " + wrap("(funcall '"+fname+sp(args)+")")
+		call = "(funcall '" + fname + sp(args) + ")"
 	case "defun", "compiled":
-		return "(defun " + fname + " " + ll + " " + body + ") " + wrap("("+fname+sp(args)+")")
+		call = "(" + fname + sp(args) + ")"
 	case "funcall":
-		return wrap("(funcall " + lam + sp(args) + ")")
+		call = "(funcall " + fn + sp(args) + ")"
 	case "apply":
-		k := c.Split
-		if len(c.Args) < k {
-			k = len(c.Args)
-		}
-		lead := strings.Join(c.Args[:k], " ")
 		tail := "'(" + strings.Join(c.Args[k:], " ") + ")"
 		if k == len(c.Args) {
 			tail = "nil"
 		}
-		return wrap("(apply " + lam + sp(lead) + " " + tail + ")")
+		call = "(apply " + fn + sp(strings.Join(c.Args[:k], " ")) + " " + tail + ")"
 	case "direct":
-		return wrap("(" + lam + sp(args) + ")")
-	case "mvcall":
-		k := c.Split
-		if len(c.Args) < k {
-			k = len(c.Args)
+		call = "(" + lam + sp(args) + ")"
+		if fn != lam {
+			// a variable cannot stand in operator position
+			call = "(funcall " + fn + sp(args) + ")"
 		}
-		return wrap("(multiple-value-call " + lam + sp(strings.Join(c.Args[:k], " ")) + " (values" + sp(strings.Join(c.Args[k:], " ")) + "))")
+	case "mvcall":
+		call = "(multiple-value-call " + fn + sp(strings.Join(c.Args[:k], " ")) + " (values" + sp(strings.Join(c.Args[k:], " ")) + "))"
+	default:
+		panic("route " + route)
 	}
-	panic("route " + route)
+	var binds, vals []string
+	for i, n := range names {
+		binds = append(binds, fmt.Sprintf("(%s %d)", n, ambientBase+i))
+		vals = append(vals, strconv.Itoa(ambientBase+i))
+	}
+	let := func(form string) string { return "(let (" + strings.Join(binds, " ") + ") " + form + ")" }
+	pre := ""
+	if isDefun {
+		pre = defun + " "
+	}
+	switch c.Amb {
+	case "":
+		return pre + call
+	case "let":
+		return pre + let(call)
+	case "caller":
+		return pre + "(defun " + callerName + " (" + strings.Join(names, " ") + ") " + call + ") (" + callerName + sp(strings.Join(vals, " ")) + ")"
+	case "closure":
+		if isDefun {
+			return let(defun) + " " + call
+		}
+		return "(let ((c04f " + let(lam) + ")) " + call + ")"
+	case "global":
+		var dv []string
+		for i, n := range names {
+			dv = append(dv, fmt.Sprintf("(defvar %s %d)", n, ambientBase+i))
+		}
+		return strings.Join(dv, " ") + sp(pre+call)
+	}
+	panic("amb " + c.Amb)
 }
+
+const callerName = "c04caller"
 
 // situation names, for the signature, the construct a wrongly bound
 // parameter belongs to.
@@ -778,29 +841,31 @@ func situation(c *Case, res *ref.Result, name, kind string) string {
 	if note == "" {
 		note = "-"
 	}
-	if c.Ambient && (note == "default" || note == "plain" || note == "with-key-params") {
-		note += " callers-variable-of-same-name"
+	if c.Amb != "" {
+		note += " same-name-visible-in=" + c.Amb
 	}
 	return note
 }
 
-// outerOf gives the variables of the scope a route's function is created in:
-// with Ambient the lambda routes build the lambda inside the let, a defun is
-// made at top level and sees none of them.
+// outerOf gives the variables lexically visible where a route's function is
+// created (an init form that names a later parameter means those): with "let"
+// and "caller" the lambda routes build the lambda inside the binding form
+// while a defun is made at top level; with "closure" every function is made
+// inside the let; globals are visible everywhere.
 func outerOf(c *Case, route string) map[string]string {
-	if !c.Ambient {
+	isDefun := route == "defun" || route == "compiled" || route == "symcall"
+	switch c.Amb {
+	case "":
 		return nil
-	}
-	switch route {
-	case "defun", "compiled", "symcall":
-		return nil
+	case "let", "caller":
+		if isDefun {
+			return nil
+		}
 	}
 	out := map[string]string{}
-	names, kinds := c.LL.Names()
+	names, _ := c.LL.Names()
 	for i, n := range names {
-		if kinds[i] != "req" {
-			out[n] = strconv.Itoa(ambientBase + i)
-		}
+		out[n] = strconv.Itoa(ambientBase + i)
 	}
 	return out
 }
@@ -813,8 +878,8 @@ func execLam(x *fw.Ctx, c Case) {
 	x.Cover("A:class:" + first.Class + map[bool]string{true: ":" + first.Why, false: ""}[first.Why != ""])
 	x.Cover(fmt.Sprintf("A:args-len:%d", len(c.Args)))
 	x.Cover(fmt.Sprintf("A:shape req=%d opt=%d rest=%t keys=%d aux=%t", len(l.Req), len(l.Opt), l.Rest != "", len(l.Keys), 0 < len(l.Aux)))
-	if c.Ambient {
-		x.Cover("A:caller-binds-same-names")
+	if c.Amb != "" {
+		x.Cover("A:same-names-visible-in:" + c.Amb)
 	}
 	for _, a := range c.Args {
 		if a == "nil" || a == "t" {
@@ -829,7 +894,7 @@ func execLam(x *fw.Ctx, c Case) {
 
 	for _, route := range routes {
 		res := ref.Bind(l, c.Args, outerOf(&c, route))
-		if res.ForwardRef != "" && c.Ambient && outerOf(&c, route) == nil {
+		if res.ForwardRef != "" && c.Amb != "" && outerOf(&c, route) == nil {
 			// a top-level defun whose init form names a variable the CALLER
 			// binds: whether the caller's variable is visible there is a
 			// question of free-variable scoping (C01), not of argument binding
@@ -859,6 +924,15 @@ func execLam(x *fw.Ctx, c Case) {
 		if route == "defun" || route == "compiled" || route == "symcall" {
 			slip.UserPkg.Undefine(fname)
 		}
+		switch c.Amb {
+		case "caller":
+			slip.UserPkg.Undefine(callerName)
+		case "global":
+			// the globals of this call must not be visible to the next one
+			for _, n := range names {
+				_ = sl.Catch(func() { slip.UserPkg.Remove(n) })
+			}
+		}
 		sl.Reset()
 		x.Cover("A:route:" + route)
 		if err != nil {
@@ -877,10 +951,10 @@ func execLam(x *fw.Ctx, c Case) {
 		case ref.TooFew, ref.TooMany:
 			switch {
 			case 0 < ran:
-				x.Fail("A "+res.Class+" body-ran", "%s: the lambda list %s does not allow %d arguments, yet the body was entered (%s)",
+				x.Fail("A "+res.Class+" body-ran"+ambSig(&c), "%s: the lambda list %s does not allow %d arguments, yet the body was entered (%s)",
 					src, l.Text(), len(c.Args), routeObs[route])
 			case err == nil:
-				x.Fail("A "+res.Class+" no-condition", "%s: the lambda list %s does not allow %d arguments, yet the call returned %s",
+				x.Fail("A "+res.Class+" no-condition"+ambSig(&c), "%s: the lambda list %s does not allow %d arguments, yet the call returned %s",
 					src, l.Text(), len(c.Args), routeObs[route])
 			default:
 				x.Cover("A:rejected:" + res.Class)
@@ -982,6 +1056,13 @@ func execLam(x *fw.Ctx, c Case) {
 			}
 		}
 	}
+}
+
+func ambSig(c *Case) string {
+	if c.Amb == "" {
+		return ""
+	}
+	return " same-name-visible-in=" + c.Amb
 }
 
 func kindOf(l *ref.LL, name string) string {
